@@ -131,6 +131,18 @@ def check_tx(res, N, exons, strand, cds, f0, a, b, cs="+"):
     if lift_back(CL, a, b, cs) != inside or (inside and lib.loc_strand(CL) != M.strand_rel(strand, cs)):
         res.deviation("chunk_relative_location", dict(op="chunk_relative_location", **case), lift_back(CL, a, b, cs), inside, sig="chunk-location")
         return
+    # the third route to a chunk view: the whole-chromosome object moved onto the chunk gives the chunk twin
+    oL = lib.outcome(T0.liftover_to_parent_or_seq_chunk_parent, chunk)
+    res.trans()
+    if oL[0] != "ok":
+        res.deviation("liftover_to_parent_or_seq_chunk_parent", dict(op="lift-route", **case), oL[1], inside, sig="lift-route-raises")
+    else:
+        TL = oL[1]
+        oc = lib.outcome(lambda: TL.chunk_relative_location)
+        if oc[0] != "ok" or lift_back(oc[1], a, b, cs) != inside or lib.outcome(TL.to_dict)[1] != lib.outcome(T1.to_dict)[1]:
+            res.deviation("liftover_to_parent_or_seq_chunk_parent", dict(op="lift-route", **case), lift_back(oc[1], a, b, cs) if oc[0] == "ok" else oc[1], inside, sig="lift-route-differs")
+        elif inside and lib.outcome(lambda: str(TL.get_spliced_sequence()))[1] != F.splice(genome, inside, strand):
+            res.deviation("liftover_to_parent_or_seq_chunk_parent", dict(op="lift-route-seq", **case), lib.outcome(lambda: str(TL.get_spliced_sequence()))[1], F.splice(genome, inside, strand), sig="lift-route-sequence")
     if inside:
         o = lib.outcome(lambda: M.P(lib.loc_blocks(T1.lift_over_to_first_ancestor_of_type("chromosome")), strand))
         cmp(res, "lift_over_to_first_ancestor_of_type", case, o, inside, "chunk-liftback")
